@@ -225,8 +225,14 @@ func receiveFromTransport(ctx context.Context, c *channel, done chan<- struct{})
 			case c.inSesChan <- e:
 				// If a session is received while established,
 				// the receiver goroutine can stop.
-				if c.client && e.State.Step() >= c.State().Step() {
-					c.setStateWLock(e.State)
+				if c.client {
+					if e.State.Step() > c.State().Step() {
+						c.setStateWLock(e.State)
+					} else {
+						// The server cannot take an established session back to an earlier state (or
+						// establish it again): nothing will read from the transport any more
+						_ = c.transport.Close()
+					}
 				}
 				return
 			}
